@@ -1,7 +1,217 @@
-(* C20 — canonical k-mer arithmetic is window-exact and strand-symmetric. *)
+(* C20 — canonical k-mer arithmetic is window-exact and strand-symmetric.
+   For every k in 1..32 and every base sequence: the value obtained by sliding equals the value computed
+   from scratch for the window, equals the canonical value of the reverse-complemented window, is the
+   smaller of the two packings; the direction flag is true exactly when the forward packing is not larger;
+   reverse-complementing a packed k-mer twice is the identity; a non-ACGT symbol restarts the window.
+   Model: Kmer.v (kmer.rs canonical mode, kmer_extract.rs::enumerate_kmers).  [acgt b := b < 4],
+   [left_aligned k w := packed w * 2^(64-2k)], [revcomp w := rev (map kmer_rc_base w)]. *)
 From Ragc Require Import Mach Consts_kmer Kmer Kmer_proofs.
 Open Scope N_scope.
 
-Theorem data_canonical_min : forall x, data_canonical x = N.min (kdir x) (krc x).
-Proof. exact Kmer_proofs.data_canonical_min_proof. Qed.
-Print Assumptions data_canonical_min.
+(* ---- 1. sliding = from scratch (any prefix, window = last k symbols; includes k = 32) ---- *)
+Theorem sliding_eq_scratch : forall k pre w, 1 <= k <= 32 ->
+  Forall acgt pre -> Forall acgt w -> lenN w = k ->
+  let x := feed (kmer_new k) (pre ++ w) in
+  kdir x = left_aligned k w /\ krc x = left_aligned k (revcomp w) /\
+  kcur x = k /\ kmax x = k /\ is_full x = true.
+Proof. exact Kmer_proofs.sliding_eq_scratch_proof. Qed.
+Print Assumptions sliding_eq_scratch.
+
+Example sliding_nonvacuous_k32 :
+  let w := [3;1;2;0; 0;0;1;1; 2;2;3;3; 0;1;2;3; 3;2;1;0; 1;3;0;2; 2;0;3;1; 1;1;1;3] in
+  let pre := [0;3;3;1;2] in
+  (1 <= 32 <= 32) /\ Forall acgt pre /\ Forall acgt w /\ lenN w = 32 /\
+  kdir (feed (kmer_new 32) (pre ++ w)) = 15566040221407677783 /\
+  left_aligned 32 w = 15566040221407677783 /\
+  krc (feed (kmer_new 32) (pre ++ w)) = 3066233245340643288 /\
+  left_aligned 32 (revcomp w) = 3066233245340643288 /\
+  kshift 32 = 0 /\ kmask 32 = max_u64.
+Proof.
+  cbv zeta. split; [split; discriminate |].
+  split; [apply acgtb_forall; reflexivity |]. split; [apply acgtb_forall; reflexivity |].
+  vm_compute. repeat split; reflexivity.
+Qed.
+
+Example sliding_nonvacuous_k3 :
+  (1 <= 3 <= 32) /\ Forall acgt [1;1;0] /\ Forall acgt [2;3;1] /\ lenN [2;3;1] = 3 /\
+  kdir (feed (kmer_new 3) ([1;1;0] ++ [2;3;1])) = 12970366926827028480 /\
+  krc (feed (kmer_new 3) ([1;1;0] ++ [2;3;1])) = 9511602413006487552.
+Proof.
+  split; [split; discriminate |].
+  split; [apply acgtb_forall; reflexivity |]. split; [apply acgtb_forall; reflexivity |].
+  vm_compute. repeat split; reflexivity.
+Qed.
+
+(* fill-up phase: fewer than k symbols seen *)
+Theorem fill_phase : forall k l, 1 <= k <= 32 -> Forall acgt l -> lenN l <= k ->
+  let x := feed (kmer_new k) l in
+  kdir x = packed l * 2 ^ (64 - 2 * lenN l) /\
+  krc x = packed (revcomp l) * 2 ^ (64 - 2 * lenN l) /\
+  kcur x = lenN l /\ kmax x = k /\ is_full x = (lenN l =? k).
+Proof. exact Kmer_proofs.fill_phase_proof. Qed.
+Print Assumptions fill_phase.
+
+Example fill_phase_nonvacuous :
+  (1 <= 5 <= 32) /\ Forall acgt [2;3] /\ lenN [2;3] <= 5 /\
+  kdir (feed (kmer_new 5) [2;3]) = 12682136550675316736 /\
+  krc (feed (kmer_new 5) [2;3]) = 1152921504606846976 /\
+  is_full (feed (kmer_new 5) [2;3]) = false.
+Proof.
+  split; [split; discriminate |]. split; [apply acgtb_forall; reflexivity |].
+  vm_compute. repeat split; (reflexivity || discriminate).
+Qed.
+
+(* ---- 2. the canonical value is the smaller packing ---- *)
+Theorem canonical_is_min : forall k pre w, 1 <= k <= 32 ->
+  Forall acgt pre -> Forall acgt w -> lenN w = k ->
+  data_canonical (feed (kmer_new k) (pre ++ w))
+  = N.min (left_aligned k w) (left_aligned k (revcomp w)).
+Proof. exact Kmer_proofs.canonical_is_min_proof. Qed.
+Print Assumptions canonical_is_min.
+
+Example canonical_is_min_nonvacuous :
+  let w := [3;1;2;0; 0;0;1;1; 2;2;3;3; 0;1;2;3; 3;2;1;0; 1;3;0;2; 2;0;3;1; 1;1;1;3] in
+  Forall acgt w /\ lenN w = 32 /\
+  data_canonical (feed (kmer_new 32) ([2;2] ++ w)) = 3066233245340643288 /\
+  data_canonical (feed (kmer_new 5) ([1] ++ [0;0;1;3;2])) = 540431955284459520.
+Proof.
+  cbv zeta. split; [apply acgtb_forall; reflexivity |]. vm_compute. repeat split; reflexivity.
+Qed.
+
+(* ---- 3. strand symmetry (whatever preceded the window on either strand) ---- *)
+Theorem canonical_strand_symmetric : forall k pre pre' w, 1 <= k <= 32 ->
+  Forall acgt pre -> Forall acgt pre' -> Forall acgt w -> lenN w = k ->
+  data_canonical (feed (kmer_new k) (pre ++ w))
+  = data_canonical (feed (kmer_new k) (pre' ++ revcomp w)).
+Proof. exact Kmer_proofs.canonical_strand_symmetric_proof. Qed.
+Print Assumptions canonical_strand_symmetric.
+
+Example strand_symmetric_nonvacuous :
+  let w := [3;1;2;0; 0;0;1;1; 2;2;3;3; 0;1;2;3; 3;2;1;0; 1;3;0;2; 2;0;3;1; 1;1;1;3] in
+  revcomp w = [0;2;2;2; 2;0;3;1; 1;3;0;2; 3;2;1;0; 0;1;2;3; 0;0;1;1; 2;2;3;3; 3;1;2;0] /\
+  data_canonical (feed (kmer_new 32) ([0;1] ++ w)) = 3066233245340643288 /\
+  data_canonical (feed (kmer_new 32) ([3;3;3] ++ revcomp w)) = 3066233245340643288.
+Proof. vm_compute. repeat split; reflexivity. Qed.
+
+(* ---- 4. direction flag ---- *)
+Theorem dir_flag_iff_le : forall k pre w, 1 <= k <= 32 ->
+  Forall acgt pre -> Forall acgt w -> lenN w = k ->
+  (is_dir_oriented (feed (kmer_new k) (pre ++ w)) = true
+   <-> left_aligned k w <= left_aligned k (revcomp w)).
+Proof. exact Kmer_proofs.dir_flag_iff_le_proof. Qed.
+Print Assumptions dir_flag_iff_le.
+
+(* ... and the left-aligned order is the order of the packings themselves *)
+Theorem left_aligned_le_iff : forall k a b,
+  left_aligned k a <= left_aligned k b <-> packed a <= packed b.
+Proof. exact Kmer_proofs.left_aligned_le_iff. Qed.
+Print Assumptions left_aligned_le_iff.
+
+Example dir_flag_nonvacuous :
+  is_dir_oriented (feed (kmer_new 5) ([3] ++ [0;0;1;3;2])) = true /\
+  left_aligned 5 [0;0;1;3;2] <= left_aligned 5 (revcomp [0;0;1;3;2]) /\
+  is_dir_oriented (feed (kmer_new 3) ([0] ++ [2;3;1])) = false /\
+  ~ left_aligned 3 [2;3;1] <= left_aligned 3 (revcomp [2;3;1]).
+Proof.
+  split; [vm_compute; reflexivity |]. split; [vm_compute; discriminate |].
+  split; [vm_compute; reflexivity |]. vm_compute. intro H. apply H. reflexivity.
+Qed.
+
+(* ---- 5. whole-k-mer reverse complement and canonical_kmer on left-aligned values ---- *)
+Theorem rc_kmer_spec : forall k w, 1 <= k <= 32 -> Forall acgt w -> lenN w = k ->
+  reverse_complement_kmer (left_aligned k w) k = left_aligned k (revcomp w).
+Proof. exact Kmer_proofs.rc_kmer_spec_proof. Qed.
+Print Assumptions rc_kmer_spec.
+
+Theorem rc_kmer_involutive : forall k w, 1 <= k <= 32 -> Forall acgt w -> lenN w = k ->
+  reverse_complement_kmer (reverse_complement_kmer (left_aligned k w) k) k = left_aligned k w.
+Proof. exact Kmer_proofs.rc_kmer_involutive_proof. Qed.
+Print Assumptions rc_kmer_involutive.
+
+Theorem canonical_kmer_spec : forall k w, 1 <= k <= 32 -> Forall acgt w -> lenN w = k ->
+  canonical_kmer (left_aligned k w) k = N.min (left_aligned k w) (left_aligned k (revcomp w)).
+Proof. exact Kmer_proofs.canonical_kmer_spec_proof. Qed.
+Print Assumptions canonical_kmer_spec.
+
+Theorem canonical_kmer_strand_symmetric : forall k w, 1 <= k <= 32 -> Forall acgt w ->
+  lenN w = k ->
+  canonical_kmer (left_aligned k (revcomp w)) k = canonical_kmer (left_aligned k w) k.
+Proof. exact Kmer_proofs.canonical_kmer_strand_symmetric_proof. Qed.
+Print Assumptions canonical_kmer_strand_symmetric.
+
+Example rc_kmer_nonvacuous :
+  reverse_complement_kmer 15566040221407677783 32 = 3066233245340643288 /\
+  reverse_complement_kmer 3066233245340643288 32 = 15566040221407677783 /\
+  canonical_kmer 15566040221407677783 32 = 3066233245340643288 /\
+  reverse_complement_kmer (left_aligned 3 [2;3;1]) 3 = 9511602413006487552 /\
+  reverse_complement_kmer 9511602413006487552 3 = left_aligned 3 [2;3;1].
+Proof. vm_compute. repeat split; reflexivity. Qed.
+
+(* ---- 6. enumerate_kmers = canonical values of exactly the ACGT-only windows, in order;
+        contig symbols are arbitrary (no byte bound needed), symbols > 3 reset ---- *)
+Theorem kmers_spec_holds : forall k c, 1 <= k <= 32 ->
+  enumerate_kmers c k
+  = map (fun w => N.min (left_aligned k w) (left_aligned k (revcomp w)))
+        (filter (forallb acgtb) (windows (N.to_nat k) c)).
+Proof. exact Kmer_proofs.kmers_spec_proof. Qed.
+Print Assumptions kmers_spec_holds.
+
+Theorem non_acgt_restarts : forall k pre b post, 1 <= k <= 32 -> 3 < b ->
+  enumerate_kmers (pre ++ b :: post) k = enumerate_kmers pre k ++ enumerate_kmers post k.
+Proof. exact Kmer_proofs.non_acgt_restarts_proof. Qed.
+Print Assumptions non_acgt_restarts.
+
+Example windows_example :
+  windows 3 [0;1;2;4;3;3] = [[0;1;2]; [1;2;4]; [2;4;3]; [4;3;3]].
+Proof. reflexivity. Qed.
+
+Example kmers_nonvacuous :
+  enumerate_kmers [0;1;2;4;3;3;1;0;2;255;1;1] 3
+  = [1729382256910270464; 9223372036854775808; 14987979559889010688; 5188146770730811392] /\
+  let w := [3;1;2;0; 0;0;1;1; 2;2;3;3; 0;1;2;3; 3;2;1;0; 1;3;0;2; 2;0;3;1; 1;1;1;3] in
+  enumerate_kmers ([7] ++ w ++ [1;0] ++ [30] ++ firstn 31 w) 32
+  = [3066233245340643288; 6923928664502056285; 9248970584298673524].
+Proof. vm_compute. split; reflexivity. Qed.
+
+(* ---- 7. no arithmetic trap on this domain (consumed by C18): in every state reachable by ACGT
+        symbols the u64 sums of insert_canonical stay below 2^64, 64 - 2k and 64 - 2*cur_size do
+        not underflow, shift amounts are below 64 ---- *)
+Theorem no_trap_dir_step : forall k l s, 1 <= k <= 32 -> Forall acgt l -> acgt s ->
+  let x := feed (kmer_new k) l in
+  2 * k <= 64 /\ kshift k < 64 /\
+  (kcur x = kmax x ->
+     shl64 (kdir x) 2 + shl64 s (kshift k) < two64) /\
+  (kcur x <> kmax x ->
+     kcur x + 1 <= kmax x /\ 2 * (kcur x + 1) <= 64 /\ 64 - 2 * (kcur x + 1) < 64 /\
+     kdir x + shl64 s (64 - 2 * (kcur x + 1)) < two64).
+Proof. exact Kmer_proofs.no_trap_dir_step_proof. Qed.
+Print Assumptions no_trap_dir_step.
+
+Theorem no_trap_rc_step : forall k l s, 1 <= k <= 32 -> Forall acgt l -> acgt s ->
+  let x := feed (kmer_new k) l in
+  shr64 (krc x) 2 + shl64 (kmer_rc_base s) 62 < two64.
+Proof. exact Kmer_proofs.no_trap_rc_step_proof. Qed.
+Print Assumptions no_trap_rc_step.
+
+(* hence the wrap64 in the model's steps is the identity there *)
+Theorem insert_no_wrap : forall k l s, 1 <= k <= 32 -> Forall acgt l -> acgt s ->
+  let x := feed (kmer_new k) l in
+  (kcur x = kmax x -> dir_step_full k (kdir x) s = shl64 (kdir x) 2 + shl64 s (kshift k)) /\
+  (kcur x <> kmax x ->
+     dir_step_fill (kdir x) (kcur x + 1) s = kdir x + shl64 s (64 - 2 * (kcur x + 1))) /\
+  rc_step k (krc x) s = N.land (shr64 (krc x) 2 + shl64 (kmer_rc_base s) 62) (kmask k).
+Proof. exact Kmer_proofs.insert_no_wrap_proof. Qed.
+Print Assumptions insert_no_wrap.
+
+(* tight instance: k = 32, window all T, insert T: the sum is 2^64 - 1 *)
+Example no_trap_nonvacuous :
+  let l := repeat 3 40 in
+  Forall acgt l /\ acgt 3 /\
+  kcur (feed (kmer_new 32) l) = kmax (feed (kmer_new 32) l) /\
+  shl64 (kdir (feed (kmer_new 32) l)) 2 + shl64 3 (kshift 32) = max_u64 /\
+  shr64 (krc (feed (kmer_new 32) [0;0;0])) 2 + shl64 (kmer_rc_base 0) 62 = 18374686479671623680 /\
+  kcur (feed (kmer_new 32) [0;0;0]) <> kmax (feed (kmer_new 32) [0;0;0]).
+Proof.
+  cbv zeta. split; [apply acgtb_forall; reflexivity |]. split; [reflexivity |].
+  vm_compute. repeat split; (reflexivity || discriminate).
+Qed.
